@@ -1,10 +1,12 @@
 """C17 — XML helper round-trips (ncclient/xml_.py).
-Model: coq/Model/XTree.v, XmlHelpers.v, XmlHistory.v, XmlSession.v; theorems: coq/Props/C17.v;
-harness: tools/harness/xmlgen.py, xmlhist.py (snapshots), xmlsession.py (multi-program sessions)."""
+Model: coq/Model/XTree.v, XmlHelpers.v, XmlHistory.v, XmlSession.v, XmlReparse.v; theorems: coq/Props/C17.v;
+harness: tools/harness/xmlgen.py, xmlhist.py (snapshots), xmlsession.py (multi-program sessions),
+xmlreparse.py (parse - edit - parse again)."""
 import re, json, os, sys, copy
 from harness import xmlgen as X
 from harness import xmlhist as H
 from harness import xmlsession as S
+from harness import xmlreparse as R
 
 ID = 'C17'
 COQ_ROOTS = ['Props/C17.v', 'GenProps/XmlHelpers_consts.v']
@@ -23,7 +25,15 @@ RULE = ('Generated documents (names incl. non-ASCII, default/prefixed/undeclared
         'with the mapping, non-identifier and namespaced names), attrs positional or by name, the last programs written without '
         'any attribute; after every call the element made is compared with what the call specifies, every other tree and the '
         'caller\'s dictionaries with what they were, the default arguments of every function of xml_ (by value) with those at '
-        'the start, and every tree is serialised and read back (to_ele, expat) against the tree ITS OWN program specifies. '
+        'the start, and every tree is serialised and read back (to_ele, expat) against the tree ITS OWN program specifies; '
+        'RE-PARSE histories: one process parses 1-2 texts (documents, rpc-replies around documents) 2-7 times through to_ele '
+        '(huge_tree omitted / False / True, by keyword and by position), validated_element(text), RPCReply.parse, '
+        'GetReply.data_ele, NCElement(reply, stylesheet) and parse_root, and between the parses changes the trees it got back in '
+        'place (replace_namespace, sub_ele, sub_ele_ns, attributes, text, tails, removing a child, moving a child into another '
+        'tree, writing into the attribute mapping parse_root returned); always parse(s) -> edits -> parse(s) with the same parser '
+        'variant within <= 2 other calls; every tree handed out is compared with the independent reader\'s tree of THAT text, must '
+        'share no node with a tree handed out before, must equal (deep snapshot) the first tree handed out for the text, and after '
+        'every call every tree the call was not given is compared with its snapshot before. '
         'A case is one (kind, document/program, arguments); non-trivial = the tree has >= 2 elements or >= 1 attribute '
         '(documents) / >= 2 operations (programs, histories, sessions).')
 ASSUMES = ['libxml2 parser/serialiser (lxml 6.1.3) are oracles of the model: the parser is represented by the event stream of the '
@@ -592,6 +602,175 @@ def run_session(case, o):
     for u in used: o.hist['session: attrs ' + u] = 'yes'
 
 
+
+# ------------------------------------------------------------------ re-parse histories: parse(s) -> in-place edits -> parse(s) again
+_XSLT = []
+def strip_xslt():
+    """the namespace-stripping stylesheet a device handler hands to NCElement"""
+    if not _XSLT:
+        from ncclient.manager import make_device_handler
+        _XSLT.append(make_device_handler({'name': 'junos'}).transform_reply())
+    return _XSLT[0]
+
+
+def hand_out(via, text, root_tag):
+    """call one parsing helper on a text; the element the caller gets"""
+    from ncclient import xml_
+    if via == 'to_ele': return xml_.to_ele(text)
+    if via == 'to_ele_kw_false': return xml_.to_ele(text, huge_tree=False)
+    if via == 'to_ele_huge': return xml_.to_ele(text, huge_tree=True)
+    if via == 'to_ele_huge_pos': return xml_.to_ele(text, True)
+    if via == 'validated': return xml_.validated_element(text)
+    if via == 'validated_tags': return xml_.validated_element(text, tags=[root_tag, 'zz'])
+    huge = R.VIAS[via][0]
+    if via.startswith('rpcreply'):
+        from ncclient.operations.rpc import RPCReply
+        r = RPCReply(text, huge_tree=huge); r.parse(); return r._root
+    from ncclient.operations.retrieve import GetReply
+    return GetReply(text, huge_tree=huge).data_ele
+
+
+def run_reparse(case, o):
+    """One process parses texts - the same text more than once - and changes the trees it got back in place.  Every
+    parse hands out what an independent parser reads from THAT text, as a new tree that shares no node with any tree
+    handed out before and equals (deep snapshot) the first tree ever handed out for that text; no call changes a tree it
+    was not given; parse_root agrees with the independent reading at every point of the history; serialised trees read
+    back as the text (until the caller's first edit) / as the tree then is."""
+    from ncclient import xml_
+    texts = case['texts']
+    reads, roots = [], []
+    for t in texts:
+        try: e = X.indep_read(t); reads.append(X.canon(e)); roots.append(e)
+        except ValueError: reads.append(None); roots.append(None)
+    tops, handed, modelled, edited = [], [], [], []        # per tree handed out
+    keep = []                                              # what parse_root returned (kept alive, like a caller would)
+    first = {}                                             # (text, class of helper) -> snapshot when first handed out
+    table, mops, sel, trace = {}, [], [], []
+    mindex = []                                            # tree -> index among the modelled trees
+    def node(k, path):
+        n = tops[k]
+        for i in path: n = n[i]
+        return n
+    def view(): return [m_to_x(X.lx_mnode(tops[k])) for k in range(len(tops)) if modelled[k]]
+    for si, st in enumerate(case['steps']):
+        kind = st[0]
+        label = 'reparse step %d (%s)' % (si, ' '.join(str(x) for x in st[:3] if not isinstance(x, list)))
+        snaps = [H.snapshot(t) for t in tops]
+        given = []                                         # the trees this call was given
+        if kind in ('parse', 'nce'):
+            ti = st[2]; text = texts[ti]; want = reads[ti]
+            old_nodes = [n for t in tops for n in t.iter()]
+            try:
+                if kind == 'parse':
+                    e = hand_out(st[1], text, clark(roots[ti][1]) if roots[ti] else 'a')
+                else:
+                    from ncclient.operations.rpc import RPCReply
+                    e = xml_.NCElement(RPCReply(text), strip_xslt(), huge_tree=bool(st[1])).xpath('/*')[0]
+            except Exception as ex:
+                o.fail(label + ': raised %s on a document the independent reader accepts' % exc_name(ex), expected='a tree', actual=exc_name(ex)); return
+            if e is None or not hasattr(e, 'iter'):
+                o.fail(label + ': no element was handed out', expected='an element', actual=repr(e)); return
+            top = H.top_of(e)
+            new_nodes = list(top.iter())
+            shared = {id(n) for n in old_nodes} & {id(n) for n in new_nodes}
+            if shared or any(top is t for t in tops):
+                o.fail(label + ': the tree handed out shares %d node(s) with a tree handed out earlier (tree %s)'
+                       % (len(shared), [k for k, t in enumerate(tops) if t is top]), expected='a new tree', actual='an earlier tree / part of it')
+            if kind == 'parse':
+                got = X.canon(X.lx_tree(top))
+                if got != want:
+                    o.fail(label + ': the tree handed out differs from the independent reading of the text', expected=want, actual=got)
+                if R.VIAS[st[1]][1]:
+                    di = R.data_index(roots[ti])
+                    if top is e or di >= len(top) or top[di] is not e:
+                        o.fail(label + ': data_ele is not the first <data> child of the reply', expected='/%d' % di, actual=str(e.tag))
+                h = 1 if R.VIAS[st[1]][0] else 0
+                if (h, ti) not in table: table[(h, ti)] = R.indep_mnode(text, h)
+                mops.append([0, h, B(text)])
+            snap = H.snapshot(top)
+            cls = (ti, kind)
+            if cls not in first: first[cls] = snap
+            elif snap != first[cls]:
+                o.fail(label + ': the tree handed out differs from the first one handed out for the same text: ' + str(H.first_diff(first[cls], snap)),
+                       expected='what the first call returned', actual=str(H.first_diff(first[cls], snap)))
+            mindex.append(sum(modelled)); tops.append(top); handed.append(e); modelled.append(kind == 'parse'); edited.append(False)
+            o.hist['reparse: via ' + (st[1] if kind == 'parse' else 'NCElement')] = 'yes'
+        elif kind == 'parse_root':
+            ti = st[1]; want = reads[ti]
+            try:
+                pr = xml_.parse_root(texts[ti]); got = [X._lx_name(pr[0]), sorted([X._lx_name(a), B(v)] for a, v in pr[1].items())]
+            except Exception as ex: pr = None; got = exc_name(ex)
+            if got != [want[1], want[2]]:
+                o.fail(label + ': parse_root is not the root tag and attributes of the text', expected=[want[1], want[2]], actual=got)
+            if pr is not None and st[2]:
+                pr[1][st[2][0]] = st[2][1]                 # the caller writes into the attribute mapping it was given
+            keep.append(pr)
+        elif kind == 'to_xml':
+            k = st[1]
+            want = reads[case_ti(case, k)] if modelled[k] and not edited[k] else X.canon(X.lx_resolved(tops[k]))
+            check_serialised(o, label, xml_.to_xml(tops[k]), want)
+        elif kind in R.EDITS:
+            k, path = st[1], list(st[2]); n = node(k, path); given = [k]
+            edited[k] = True
+            if kind == 'replace':
+                old, new = st[3], st[4]; bt = X.lx_tree(n)
+                try: xml_.replace_namespace(n, old, new); err = None
+                except Exception as ex: err = exc_name(ex)
+                if err: o.fail(label + ': replace_namespace raised ' + err, expected='renamed tree', actual=err)
+                elif not rename_collides(bt, old, new) and X.canon(X.lx_tree(n)) != X.canon(spec_rename(bt, old, new)):
+                    o.fail(label + ': replace_namespace did not rename exactly the names of the old namespace', expected=X.canon(spec_rename(bt, old, new)), actual=X.canon(X.lx_tree(n)))
+                if modelled[k]: mops.append([1, mindex[k], [3, path, nsval(old), nsval(new)]])
+            elif kind in ('sub_ele', 'sub_ele_ns'):
+                tag = st[3]; ns = st[4] if kind == 'sub_ele_ns' else None; attrs = st[-1]
+                d = None if attrs is None else dict(attrs)
+                pns = X.lx_resolved(n)[1][0]; cnt = len(n)
+                args = (n, tag) + ((ns,) if kind == 'sub_ele_ns' else ()) + (() if d is None else (d,))
+                c = getattr(xml_, kind)(*args)
+                wname = [[B(ns)] if ns else [], B(tag)] if kind == 'sub_ele_ns' else [pns, B(tag)]
+                if len(n) != cnt + 1 or n[-1] is not c or X.lx_resolved(c)[1] != wname or dict(c.attrib) != dict(attrs or []) or c.text or c.tail or len(c):
+                    o.fail(label + ': the new last child is not the element asked for', expected=[wname, attrs], actual=[X.lx_resolved(c)[1], dict(c.attrib), c.text, c.tail, len(c)])
+                if modelled[k]:
+                    mops.append([1, mindex[k], [4, path, B(tag), attrs_val(attrs or [])] if kind == 'sub_ele' else [5, path, B(tag), nsval(ns), attrs_val(attrs or [])]])
+            else:
+                # the caller's own edits through the lxml API: the model is told what the tree is afterwards
+                if kind == 'set': n.set(st[3], st[4])
+                elif kind == 'text': n.text = st[3]
+                elif kind == 'tail': n.tail = st[3]
+                elif kind == 'remove': n.remove(n[-1])
+                elif kind == 'move':
+                    j = st[3]; given.append(j)
+                    node(j, list(st[4])).append(n[-1]); edited[j] = True
+                for g in given:
+                    if modelled[g]: mops.append([2, mindex[g], X.lx_mnode(tops[g])])
+        else:
+            o.fail(label + ': unknown step'); return
+        # --- no call changes a tree it was not given
+        for k, b in enumerate(snaps):
+            if k in given: continue
+            a = H.snapshot(tops[k])
+            if a != b:
+                o.fail(label + ': the call changed tree %d, which it was not given: %s' % (k, H.first_diff(b, a)),
+                       expected='tree %d as before' % k, actual=str(H.first_diff(b, a)))
+        sel.append(len(mops)); trace.append(view())
+    if mops:
+        tb = [[h, B(texts[ti]), [m] if m is not None else []] for (h, ti), m in sorted(table.items())]
+        def post(v):
+            if not isinstance(v, list): return v
+            out = [[m_to_x(t) for t in v[i - 1]] if 0 < i <= len(v) else [] for i in sel]
+            return out
+        o.model([11, tb, mops], trace, 'reparse: every tree handed out so far, after every call, vs rtrace', post=post)
+    nsame = {}
+    for st in case['steps']:
+        if st[0] in ('parse', 'nce'): nsame[st[2]] = nsame.get(st[2], 0) + 1
+    o.hist['reparse: most parses of one text'] = str(max(nsame.values())) if nsame else '0'
+    o.hist['reparse: trees'] = str(len(tops))
+
+
+def case_ti(case, k):
+    """the text tree k was made from"""
+    return [st[2] for st in case['steps'] if st[0] in ('parse', 'nce')][k]
+
+
 def snap_node_of(n): return H.snap_node(n)
 
 
@@ -634,7 +813,7 @@ def canon_m(m):
     return [0, m[1], m[2], sorted(m[3]), [canon_m(k) for k in m[4]]]
 
 KINDS = {'doc': run_doc, 'subtail': run_subtail, 'validated': run_validated, 'replace': run_replace, 'program': run_program,
-         'history': run_history, 'session': run_session, 'sequence': run_sequence}
+         'history': run_history, 'session': run_session, 'reparse': run_reparse, 'sequence': run_sequence}
 
 def evaluate(case):
     o = Out()
@@ -863,6 +1042,9 @@ def cases_for(ctx):
             out.append(gen_history(rng, src=body, exp=exp) if i % 8 else gen_history(rng, prog=gen_program(rng)))
     for i in range(n // 2):
         out.append(S.gen_session(rng))
+    gr = X.DocGen(rng, max_depth=3, max_kids=3)
+    for i in range(n // 2):
+        out.append(R.gen_reparse(rng, gr))
     return out
 
 # hand-written cases that pin the known corners (run first, with the corpus)
@@ -883,6 +1065,13 @@ PINNED = [
         ['sub_ele', 1, [], 'x', ['d', 0, False], [['a', '9']]], ['sub_ele_ns', 1, [2], 'y', None, ['d', 1, False], []],
         ['new_ele_nsmap', 'hello', [[None, BASE]], ['l', [['a', '1']], True], [['a', 'K'], ['{urn:u}q', '5']]], ['sub_ele', 2, [], 'capabilities', None, []],
         ['new_ele', 'probe', None, []], ['new_ele_nsmap', 'probe', [], None, []], ['sub_ele_ns', 4, [], 'k', None, None, []]]},
+    {'kind': 'reparse', 'texts': ['<a xmlns="urn:u"><b/>t</a>'],
+     'steps': [['parse', 'to_ele_huge', 0], ['sub_ele', 0, [], 'added-later', None], ['replace', 0, [], 'urn:u', 'urn:v'], ['set', 0, [], 'touched', 'yes'],
+               ['parse', 'to_ele_huge', 0], ['parse', 'to_ele', 0], ['replace', 2, [0], 'urn:u', 'urn:w'], ['parse', 'to_ele_kw_false', 0], ['to_xml', 1]]},
+    {'kind': 'reparse', 'texts': ['<rpc-reply xmlns="urn:ietf:params:xml:ns:netconf:base:1.0" message-id="7">\n  <data><x:c xmlns:x="urn:y" k="1">v &amp; w<d/>tail</x:c></data>\n</rpc-reply>', '<a><b>x</b>tail<c/></a>'],
+     'steps': [['parse', 'getreply_data_huge', 0], ['replace', 0, [0], 'urn:ietf:params:xml:ns:netconf:base:1.0', 'urn:v'], ['sub_ele_ns', 0, [0, 0], 'n', 'urn:w', [['a', '1']]],
+               ['parse', 'to_ele', 1], ['move', 0, [0, 0], 1, [0]], ['parse_root', 0, ['touched', 'yes']], ['parse', 'rpcreply_huge', 0], ['remove', 2, [0]],
+               ['parse', 'getreply_data_huge', 0], ['parse', 'validated_tags', 1], ['nce', True, 0], ['set', 5, [], 'touched', 'yes'], ['nce', True, 0], ['to_xml', 3]]},
     {'kind': 'subtail', 'src': '<a><b>x</b>tail<c/></a>', 'path': [0]},
     {'kind': 'replace', 'src': '<a xmlns:p="urn:u" p:x="1"><?pi z?><p:b/></a>', 'old': 'urn:u', 'new': 'urn:v'},
     {'kind': 'replace', 'src': '<a xmlns:p="urn:u" xmlns:q="urn:v" p:x="1" q:x="2"/>', 'old': 'urn:u', 'new': 'urn:v'},
@@ -896,7 +1085,7 @@ PINNED = [
 
 def nontrivial(case):
     if case['kind'] == 'program': return len(case['ops']) >= 2
-    if case['kind'] in ('history', 'session'): return len(case['steps']) >= 2
+    if case['kind'] in ('history', 'session', 'reparse'): return len(case['steps']) >= 2
     if case['kind'] == 'sequence': return True
     return case['src'].count('<') >= 3 or '="' in case['src'] or "='" in case['src']
 
